@@ -5,7 +5,7 @@ package server
 // Direction G: TLC enumerates abstract statement descriptors together with the decision the
 // specification requires (reject / master / any, fast path allowed or not, blacklisted or not).
 // This file renders each descriptor to concrete SQL text (rendering is not an oracle), sends it through
-// the real SessionExecutor (ExecuteCommand: COM_QUERY, multi-statement COM_QUERY, COM_STMT_PREPARE +
+// the real SessionExecutor (Session.execCommand -> ExecuteCommand: COM_QUERY, multi-statement COM_QUERY, COM_STMT_PREPARE +
 // COM_STMT_EXECUTE) on a real Namespace whose node pools are replaced by recording fakes, and compares
 // the observation (error before any pool Get / role of the pool a connection was taken from) with the
 // expected decision that came out of TLC.
@@ -73,13 +73,37 @@ type polLedger struct {
 	mu       sync.Mutex
 	gets     []string // role of the pool of every Get, in order
 	exec     []string // "role|sql" of every Execute
+	events   []string // "get|role" and "exec|role|sql" in order
 }
 
 func (l *polLedger) reset() {
 	l.mu.Lock()
 	l.gets = nil
 	l.exec = nil
+	l.events = nil
 	l.mu.Unlock()
+}
+
+// rolesAfterMarker returns the roles of the pools that served the statement under test: every Get and every
+// Execute recorded after the last Execute whose text contains marker (the companion read of a multi-statement
+// text), or all of them when there is no such Execute.
+func (l *polLedger) rolesAfterMarker(marker string) []string {
+	l.mu.Lock()
+	defer l.mu.Unlock()
+	from := 0
+	if marker != "" {
+		for i, e := range l.events {
+			if strings.HasPrefix(e, "exec|") && strings.Contains(e, marker) {
+				from = i + 1
+			}
+		}
+	}
+	out := []string{}
+	for _, e := range l.events[from:] {
+		f := strings.SplitN(e, "|", 3)
+		out = append(out, f[1])
+	}
+	return out
 }
 
 func (l *polLedger) snapshot() ([]string, []string) {
@@ -101,13 +125,14 @@ func (p *polPool) Close()             {}
 func (p *polPool) Get(ctx context.Context) (backend.PooledConnect, error) {
 	p.ledger.mu.Lock()
 	p.ledger.gets = append(p.ledger.gets, p.role)
+	p.ledger.events = append(p.ledger.events, "get|"+p.role)
 	p.ledger.mu.Unlock()
 	return &polConn{pool: p}, nil
 }
 
 // GetCheck is the health checker's entry; it is not a statement reaching a backend.
 func (p *polPool) GetCheck(ctx context.Context) (backend.PooledConnect, error) {
-	return &polConn{pool: p}, nil
+	return &polConn{pool: p, check: true}, nil
 }
 func (p *polPool) Put(pc backend.PooledConnect)         {}
 func (p *polPool) SetCapacity(capacity int) (err error) { return nil }
@@ -128,6 +153,7 @@ func (p *polPool) GetLastChecked() int64                { return time.Now().Unix
 type polConn struct {
 	pool   *polPool
 	closed bool
+	check  bool // handed to the health checker: what it executes is not a client statement
 }
 
 func polEmptyResult() *mysql.Result {
@@ -142,8 +168,12 @@ func (c *polConn) UseDB(db string) error {
 	return nil
 }
 func (c *polConn) Execute(sql string, maxRows int) (*mysql.Result, error) {
+	if c.check {
+		return polEmptyResult(), nil
+	}
 	c.pool.ledger.mu.Lock()
 	c.pool.ledger.exec = append(c.pool.ledger.exec, c.pool.role+"|"+sql)
+	c.pool.ledger.events = append(c.pool.ledger.events, "exec|"+c.pool.role+"|"+sql)
 	fail := c.pool.ledger.failExec
 	c.pool.ledger.mu.Unlock()
 	if fail {
@@ -190,41 +220,16 @@ func (polNetConn) SetReadDeadline(t time.Time) error  { return nil }
 func (polNetConn) SetWriteDeadline(t time.Time) error { return nil }
 
 type polFixture struct {
-	manager *Manager
-	ns      *Namespace
-	ledger  *polLedger
-	server  *Server
-	logdir  string
+	blackSQL []string
+	manager  *Manager
+	ns       *Namespace
+	ledger   *polLedger
+	server   *Server
+	logdir   string
 }
 
-func polNewFixture(blackSQL []string) (*polFixture, error) {
-	logdir, err := os.MkdirTemp("", "verif-policy-logs-")
-	if err != nil {
-		return nil, err
-	}
-	proxy := &models.Proxy{
-		ConfigType: "file", Service: "gaea_proxy", Cluster: "gaea", Environ: "local",
-		LogPath: logdir, LogLevel: "fatal", LogFileName: "gaea", LogOutput: "file",
-		StatsEnabled: "true", EncryptKey: "1234abcd5678efg*", ServerIdc: "c3",
-		SlowSQLTime: 100000, SessionTimeout: 3600,
-	}
-	nsc := &models.Namespace{}
-	if err := json.Unmarshal([]byte(polNsCfg), nsc); err != nil {
-		return nil, err
-	}
-	nsc.BlackSQL = blackSQL
-	m := NewManager()
-	sm, err := CreateStatisticManager(proxy, m)
-	if err != nil {
-		return nil, err
-	}
-	m.statistics = sm
-	ns, err := NewNamespace(nsc, "c3")
-	if err != nil {
-		return nil, err
-	}
-	// no ns.Init(): no health-check goroutines against the fake pools
-	led := &polLedger{}
+// polInstallFakes replaces every node pool of the namespace by a recording fake.
+func polInstallFakes(ns *Namespace, led *polLedger) error {
 	for name, sl := range ns.slices {
 		for _, dbi := range []*backend.DBInfo{sl.Master, sl.MonitorMaster} {
 			if dbi == nil {
@@ -242,11 +247,66 @@ func polNewFixture(blackSQL []string) (*polFixture, error) {
 				n.ConnPool = &polPool{role: "replica", addr: name + "/replica/" + n.Address, ledger: led}
 			}
 		}
-	}
-	for name, sl := range ns.slices {
 		if sl.Slave == nil || len(sl.Slave.Nodes) == 0 || sl.Master == nil || len(sl.Master.Nodes) == 0 {
-			return nil, fmt.Errorf("fixture: slice %s has no master or no replica node", name)
+			return fmt.Errorf("fixture: slice %s has no master or no replica node", name)
 		}
+	}
+	return nil
+}
+
+// polNsConfig returns the namespace configuration; flipRW gives every user the opposite rw_flag
+// (the configuration "before the reload" of descriptors with priv = "reloaded").
+func polNsConfig(blackSQL []string, flipRW bool) (*models.Namespace, error) {
+	nsc := &models.Namespace{}
+	if err := json.Unmarshal([]byte(polNsCfg), nsc); err != nil {
+		return nil, err
+	}
+	nsc.BlackSQL = blackSQL
+	if flipRW {
+		for _, u := range nsc.Users {
+			if u.RWFlag == models.ReadOnly {
+				u.RWFlag = models.ReadWrite
+			} else {
+				u.RWFlag = models.ReadOnly
+			}
+		}
+	}
+	return nsc, nil
+}
+
+func polNewFixture(blackSQL []string) (*polFixture, error) {
+	return polNewFixtureCfg(blackSQL, false)
+}
+
+func polNewFixtureCfg(blackSQL []string, flipRW bool) (*polFixture, error) {
+	logdir, err := os.MkdirTemp("", "verif-policy-logs-")
+	if err != nil {
+		return nil, err
+	}
+	proxy := &models.Proxy{
+		ConfigType: "file", Service: "gaea_proxy", Cluster: "gaea", Environ: "local",
+		LogPath: logdir, LogLevel: "fatal", LogFileName: "gaea", LogOutput: "file",
+		StatsEnabled: "true", EncryptKey: "1234abcd5678efg*", ServerIdc: "c3",
+		SlowSQLTime: 100000, SessionTimeout: 3600,
+	}
+	nsc, err := polNsConfig(blackSQL, flipRW)
+	if err != nil {
+		return nil, err
+	}
+	m := NewManager()
+	sm, err := CreateStatisticManager(proxy, m)
+	if err != nil {
+		return nil, err
+	}
+	m.statistics = sm
+	ns, err := NewNamespace(nsc, "c3")
+	if err != nil {
+		return nil, err
+	}
+	// no ns.Init(): no health-check goroutines against the fake pools
+	led := &polLedger{}
+	if err := polInstallFakes(ns, led); err != nil {
+		return nil, err
 	}
 	current, _, _ := m.switchIndex.Get()
 	nm := NewNamespaceManager()
@@ -259,7 +319,36 @@ func polNewFixture(blackSQL []string) (*polFixture, error) {
 	}
 	m.users[current] = um
 	srv := &Server{manager: m, ServerVersion: "5.7.25-gaea", ServerVersionCompareStatus: util.NewVersionCompareStatus("5.7.25-gaea")}
-	return &polFixture{manager: m, ns: ns, ledger: led, server: srv, logdir: logdir}, nil
+	return &polFixture{manager: m, ns: ns, ledger: led, server: srv, logdir: logdir, blackSQL: blackSQL}, nil
+}
+
+// reload performs a real namespace reload (Manager.ReloadNamespacePrepare / ReloadNamespaceCommit) to the
+// configuration with the users' final flags; the prepared namespace gets the recording fake pools before it
+// is committed.
+func (f *polFixture) reload() error {
+	nsc, err := polNsConfig(f.blackSQL, false)
+	if err != nil {
+		return err
+	}
+	if err := f.manager.ReloadNamespacePrepare(nsc); err != nil {
+		return err
+	}
+	_, other, _ := f.manager.switchIndex.Get()
+	prepared := f.manager.namespaces[other].GetNamespace(nsc.Name)
+	if prepared == nil {
+		return fmt.Errorf("fixture: prepared namespace missing")
+	}
+	if err := polInstallFakes(prepared, f.ledger); err != nil {
+		return err
+	}
+	if err := f.manager.ReloadNamespaceCommit(nsc.Name); err != nil {
+		return err
+	}
+	f.ns = f.manager.GetNamespace(nsc.Name)
+	if f.ns != prepared {
+		return fmt.Errorf("fixture: the committed namespace is not the prepared one")
+	}
+	return nil
 }
 
 func (f *polFixture) close() {
@@ -289,7 +378,26 @@ func (f *polFixture) newSession(user, db string) *SessionExecutor {
 	se.SetDatabase(db)
 	se.namespace = polNsName
 	se.SetContextNamespace()
+	// Server.onConn, after the handshake
+	ns := cc.getNamespace()
+	se.keepSession = ns.setForKeepSession
+	if up := ns.userProperties[user]; up != nil {
+		se.userPriv = up.RWFlag
+		se.userType = up.OtherProperty
+	}
 	return se
+}
+
+// polCommand does what Session.Run does around one client command: refresh the namespace of the session,
+// drop keep-session connections of a changed namespace, dispatch (execCommand), and mark the read packet as
+// recycled (the harness has no packet buffer).
+func polCommand(se *SessionExecutor, cmd byte, data []byte) Response {
+	cc := se.session
+	se.nsChangeIndexOld = se.GetNamespace().namespaceChangeIndex
+	se.SetContextNamespace()
+	cc.clearKsConns(se.nsChangeIndexOld)
+	cc.c.hasRecycledReadPacket.Set(true)
+	return cc.execCommand(cmd, data)
 }
 
 // ------------------------------------------------------------------------------------------------
@@ -312,6 +420,8 @@ type polCase struct {
 	Ro      bool   `json:"ro"`
 	Split   bool   `json:"split"`
 	Csl     bool   `json:"csl"`
+	Sess    string `json:"sess"`          // plain | after_read | ks | ks_after_read   (keep-session namespace; a plain read earlier in the session)
+	Priv    string `json:"priv"`          // static | reloaded  (the user's rw_flag was the opposite when the session connected)
 	Expect  string `json:"expect"`        // reject | master | any   (from TLC)
 	SQL     string `json:"sql,omitempty"` // filled by the harness (observation), ignored on input
 }
@@ -320,7 +430,7 @@ type polObs struct {
 	Case  polCase  `json:"case"`
 	SQL   string   `json:"sql"`
 	Err   string   `json:"err,omitempty"`
-	Gets  []string `json:"gets"`
+	Gets  []string `json:"gets"` // roles of the pools that served the statement under test (Get or Execute on a kept connection)
 	Execs []string `json:"execs,omitempty"`
 	Class string   `json:"class"` // reject-violated | master-violated | ok
 }
@@ -559,12 +669,15 @@ func polRespErr(r Response) string {
 	return ""
 }
 
+// the plain read that precedes the statement under test (same COM_QUERY, or an earlier command of the session);
+// polMarker identifies it in the ledger
+const polMarker = "424242"
+const polCompanionRead = "select id from t1 where id = " + polMarker
+
 // polExec sends one statement through the channel the descriptor names and returns the error text (if any).
 func polExec(f *polFixture, se *SessionExecutor, c *polCase, sql string, nparams int) (errText string) {
 	query := func(q string) string {
-		// the session loop has read the packet already; multi-statement handling recycles it once
-		se.session.c.hasRecycledReadPacket.Set(true)
-		return polRespErr(se.ExecuteCommand(mysql.ComQuery, []byte(q)))
+		return polRespErr(polCommand(se, mysql.ComQuery, []byte(q)))
 	}
 	switch c.Chan {
 	case "", "query":
@@ -575,9 +688,11 @@ func polExec(f *polFixture, se *SessionExecutor, c *polCase, sql string, nparams
 		return query("set @verif_b = 2; " + sql)
 	case "multi_mid":
 		return query("set @verif_b = 2; " + sql + polPieceEnd(c) + "; set @verif_c = 3")
+	case "multi_after_read":
+		// a plain read precedes the statement under test in the same COM_QUERY
+		return query(polCompanionRead + "; " + sql)
 	case "prepared":
-		se.session.c.hasRecycledReadPacket.Set(true)
-		r := se.ExecuteCommand(mysql.ComStmtPrepare, []byte(sql))
+		r := polCommand(se, mysql.ComStmtPrepare, []byte(sql))
 		if e := polRespErr(r); e != "" {
 			return "prepare: " + e
 		}
@@ -602,8 +717,7 @@ func polExec(f *polFixture, se *SessionExecutor, c *polCase, sql string, nparams
 				data = append(data, v...)
 			}
 		}
-		se.session.c.hasRecycledReadPacket.Set(true)
-		return polRespErr(se.ExecuteCommand(mysql.ComStmtExecute, data))
+		return polRespErr(polCommand(se, mysql.ComStmtExecute, data))
 	}
 	return "harness: unknown channel " + c.Chan
 }
@@ -616,23 +730,38 @@ func polPieceEnd(c *polCase) string {
 	return ""
 }
 
-func polRunCase(f *polFixture, c *polCase) (*polObs, error) {
+// polConnect opens the session of a case (what the handshake and Server.onConn do).
+func polConnect(f *polFixture, c *polCase) *SessionExecutor {
+	f.ns.setForKeepSession = c.Sess == "ks" || c.Sess == "ks_after_read"
+	return f.newSession(polUser(c), "db_ks")
+}
+
+func polRunCase(f *polFixture, c *polCase, se *SessionExecutor) (*polObs, error) {
 	sql, np, err := polRender(c)
 	if err != nil {
 		return nil, err
 	}
 	f.ns.CheckSelectLock = c.Csl
-	se := f.newSession(polUser(c), "db_ks")
+	if se == nil {
+		se = polConnect(f, c)
+	}
+	switch c.Sess {
+	case "", "plain", "ks":
+	case "after_read", "ks_after_read":
+		if e := polRespErr(polCommand(se, mysql.ComQuery, []byte(polCompanionRead))); e != "" {
+			return nil, fmt.Errorf("earlier read failed: %s", e)
+		}
+	default:
+		return nil, fmt.Errorf("unknown sess %q", c.Sess)
+	}
 	switch c.Intx {
 	case "", "no":
 	case "begin":
-		se.session.c.hasRecycledReadPacket.Set(true)
-		if e := polRespErr(se.ExecuteCommand(mysql.ComQuery, []byte("begin"))); e != "" {
+		if e := polRespErr(polCommand(se, mysql.ComQuery, []byte("begin"))); e != "" {
 			return nil, fmt.Errorf("begin failed: %s", e)
 		}
 	case "ac0":
-		se.session.c.hasRecycledReadPacket.Set(true)
-		if e := polRespErr(se.ExecuteCommand(mysql.ComQuery, []byte("set autocommit=0"))); e != "" {
+		if e := polRespErr(polCommand(se, mysql.ComQuery, []byte("set autocommit=0"))); e != "" {
 			return nil, fmt.Errorf("set autocommit=0 failed: %s", e)
 		}
 	default:
@@ -644,9 +773,14 @@ func polRunCase(f *polFixture, c *polCase) (*polObs, error) {
 	if pan {
 		o.Err = "panic: " + msg
 	}
-	o.Gets, o.Execs = f.ledger.snapshot()
-	if o.Gets == nil {
-		o.Gets = []string{}
+	_, o.Execs = f.ledger.snapshot()
+	marker := ""
+	if c.Chan == "multi_after_read" {
+		marker = polMarker
+	}
+	o.Gets = f.ledger.rolesAfterMarker(marker)
+	if len(o.Execs) > 6 {
+		o.Execs = o.Execs[:6]
 	}
 	o.Class = "ok"
 	switch c.Expect {
@@ -672,22 +806,49 @@ func TestVerifStmtPolicy(t *testing.T) {
 	if err != nil {
 		t.Fatal(err)
 	}
-	f, err := polNewFixture(nil)
-	if err != nil {
-		t.Fatal(err)
-	}
-	defer f.close()
-	all := os.Getenv("VERIF_POLICY_ALL") == "1"
-	counts := map[string]int{}
-	n, err := verifkit.EachCase(func(i int, raw json.RawMessage) error {
+	var cases []polCase
+	nreload := 0
+	if _, err := verifkit.EachCase(func(i int, raw json.RawMessage) error {
 		var c polCase
 		if err := json.Unmarshal(raw, &c); err != nil {
 			return err
 		}
-		o, err := polRunCase(f, &c)
-		if err != nil {
-			return fmt.Errorf("case %d: %v", i, err)
+		if c.Priv == "reloaded" {
+			nreload++
 		}
+		cases = append(cases, c)
+		return nil
+	}); err != nil {
+		t.Fatal(err)
+	}
+	// Descriptors with priv = "reloaded": the session connects while every user has the opposite rw_flag,
+	// then the namespace is really reloaded (Manager.ReloadNamespacePrepare/Commit) to the final user flags.
+	f, err := polNewFixtureCfg(nil, nreload > 0)
+	if err != nil {
+		t.Fatal(err)
+	}
+	defer f.close()
+	early := map[int]*SessionExecutor{}
+	if nreload > 0 {
+		for i := range cases {
+			if cases[i].Priv == "reloaded" {
+				early[i] = polConnect(f, &cases[i])
+			}
+		}
+		if err := f.reload(); err != nil {
+			t.Fatal(err)
+		}
+	}
+	all := os.Getenv("VERIF_POLICY_ALL") == "1"
+	counts := map[string]int{}
+	n := 0
+	for i := range cases {
+		c := cases[i]
+		o, err := polRunCase(f, &c, early[i])
+		if err != nil {
+			t.Fatalf("case %d: %v", i, err)
+		}
+		n++
 		role := "none"
 		for _, g := range o.Gets {
 			if role == "none" || role == g {
@@ -709,15 +870,11 @@ func TestVerifStmtPolicy(t *testing.T) {
 		case "reject-violated":
 			res.Dev(c.P+" not-rejected", "read-only user statement reached a backend (%v): %q err=%q", o.Gets, o.SQL, o.Err)
 		case "master-violated":
-			res.Dev(c.P+" on-replica", "statement that must run on the master took a connection from %v: %q", o.Gets, o.SQL)
+			res.Dev(c.P+" on-replica", "statement that must run on the master was served by %v: %q", o.Gets, o.SQL)
 		}
 		if len(res.Devs) > 0 || all {
 			out.Write(res)
 		}
-		return nil
-	})
-	if err != nil {
-		t.Fatal(err)
 	}
 	extra := map[string]interface{}{}
 	for k, v := range counts {
@@ -742,7 +899,8 @@ type unRef struct {
 
 type unCase struct {
 	Kind    string  `json:"kind"`
-	Dbset   bool    `json:"dbset"`
+	Dbset   bool    `json:"dbset,omitempty"` // cases recorded before the session database became three-valued
+	Sdb     string  `json:"sdb"`             // rule | other | none
 	Refs    []unRef `json:"refs"`
 	Sharded bool    `json:"sharded"` // ParserSaysSharded(d), from TLC
 }
@@ -996,8 +1154,18 @@ func unRunCase(f *polFixture, c *unCase) (*unObs, error) {
 		return nil, err
 	}
 	db := ""
-	if c.Dbset {
+	switch c.Sdb {
+	case "rule":
 		db = "db_ks"
+	case "other":
+		db = "db_other"
+	case "none":
+	case "":
+		if c.Dbset {
+			db = "db_ks"
+		}
+	default:
+		return nil, fmt.Errorf("unknown session database %q", c.Sdb)
 	}
 	o := &unObs{Case: *c, SQL: sql}
 	se := f.newSession("u_rw", db)
